@@ -42,6 +42,11 @@ def run(ctx):
             r["opts"] = {}
     # size thresholds of the generated tables (8/16/32-bit element types): a lexer with > 32767 DFA states, one around 500
     rows += [dict(base="biglexer", opts={}, k=0), dict(base="midlexer", opts={}, k=0), dict(base="midlexer", opts={"optimizeTables": True}, k=0)]
+    # thresholds of the rune map (flat table / compressed ranges): lexers whose highest distinguished code point sits on either side of
+    # 0x800, 0x1000, 0x10000 and at the top of the code space
+    for f in sorted(os.listdir(os.path.join(vlib.VERIF, "corpus", "C17"))):
+        if f.startswith("runetop_"):
+            rows += [dict(base=f[:-len(".tmbody")], opts={}, k=0), dict(base=f[:-len(".tmbody")], opts={"caseInsensitive": True}, k=0)]
     results = []
     B = 60
     for b in range(0, len(rows), B):
@@ -68,7 +73,7 @@ def run(ctx):
     vlib.validate_cases(ctx, "C17Trace", "C17Trace.cfg", out, label="configs", timeout=1800, **kw)
     ctx.cov["programs"] = len(results)
     ctx.cov["rule"] = ("5 base grammars x (home valuation + all single and pairwise flips of 23 boolean Go-target options)%s = %d configurations; each compiled, generated and built by the "
-                       "real tool chain; TLC admits Rejected or Write+/Build-ok only. Non-trivial: accepted configurations that set at least two options." % ("" if thorough else ", every 4th", len(results)))
+                       "real tool chain; TLC admits Rejected or Write+/Build-ok only. Non-trivial: accepted configurations that set at least two options." % ("" if thorough else ", all single flips and every 4th pairwise one", len(results)))
     ctx.assumptions += ["'builds' is decided by go1.26 build; configurations the compiler rejects with errors are outside the quantifier",
                         "the predicted file set is limited to lexer/token/parser files",
-                        "table-size thresholds: one lexer with more than 32767 DFA states and one mid-size grammar are generated and built with the home valuation"]
+                        "table-size thresholds: one lexer with more than 32767 DFA states, one mid-size grammar and ten lexers around the rune-map thresholds are generated and built with the home valuation"]
